@@ -83,6 +83,9 @@ extern char g_buf[BUF_N], g_buf2[BUF_N];
 #define MAKE_SV2(v) ((void)0)
 #endif
 
+/* operator new / new[]: never returns null (failure would be std::bad_alloc, assumed absent) */
+static inline void *new_model(size_t bytes) { void *p = malloc(bytes); __CPROVER_assume(p != (void *)0); return p; }
+
 /* memcpy of a small constant size, byte by byte */
 #define MC1_(d, s, k) ((char *)(d))[k] = ((const char *)(s))[k];
 #define MEMCPY_1(d, s) do { MC1_(d, s, 0) } while (0)
